@@ -246,7 +246,7 @@ func checkC13(res *CaseResult, jr journalRun, label string) {
 func journalCases(seed uint64, tier string, salt uint64) []Case {
 	n := 250
 	if !quick(tier) {
-		n = 8000
+		n = 4000
 	}
 	var cs []Case
 	for i := 0; i < n; i++ {
